@@ -161,6 +161,19 @@ CLAIMED = {
         "mismatched zips only checked to raise. Known findings F21 (product loses a later operand's zip), F71 (filtered_sweep "
         "keeps duplicates for repeated values).",
    technique="TLA+ sweep algebra checked by TLC; exhaustive universe export compared against the sweep API"),
+ "C19": dict(
+   category="model_checking", design_ref="6 C19",
+   text="XarrayLabels.tla (on top of MapDenote): Dims(o) = MapSpec output axes, which root inputs are carried un-reduced onto "
+        "which axes tuple, MultiIndex grouping of inputs sharing an axes tuple, generator outputs as inputs under "
+        "load_intermediate, variables without MapSpec, values = MapDenote, and the selection law (selecting by a coordinate "
+        "value yields the elements whose term contains that input atom). TLC checks the laws over the MC_MapDenote universe "
+        "restricted to rank<=2 inputs and exports, per case and per view (all outputs | single output x load_intermediate "
+        "on/off), dims, candidate and acceptable coordinate sets and selections; the real map is run, "
+        "xarray_dataset_from_results and load_xarray_dataset are projected and compared with the export and with each other "
+        "(identical), selections are executed. Seeded random pipelines go through the same model.",
+   note="xarray's own semantics (merge, sel) are trusted. Don't-cares: per-variable vs per-axis index naming after the merge, "
+        "arrays produced by functions without MapSpec, tuple-valued coordinates selected by value.",
+   technique="TLA+ labelling model checked by TLC; universe export compared against real xarray datasets"),
 }
 NOT_YET = "check not built yet in this round (specification module planned in DESIGN.md section 6)"
 
